@@ -47,7 +47,7 @@ void abort(void) {
  * contracts/allocator.h and contracts/common.h (acquire: size > 0, never fails, fresh block with arbitrary contents;
  * release: a block that is still allocated, or NULL).  The units of mode "proof" replace the calls
  * by those contracts instead. */
-#define PQ_ALLOC_BYTES (2 * PQ_CAPMAX * ISZ) /* largest request a queue within the bound can make (storage doubles once) */
+#define PQ_ALLOC_BYTES (PQ_CAPMAX * ISZ) /* largest request a queue within the bound can make (length == capacity < N doubles to < 2N) */
 void *aws_mem_acquire(struct aws_allocator *allocator, size_t size) {
     __CPROVER_assert(allocator != NULL && size > 0, "aws_mem_acquire: precondition of the allocator contract");
     __CPROVER_assert(size <= PQ_ALLOC_BYTES, "aws_mem_acquire: request within what a queue of this bound can need");
@@ -75,7 +75,7 @@ int aws_last_error(void) {
         g_ki = nondet_size_t(); g_pos = nondet_size_t(); g_ki_key = nondet_u8(); g_ki_b = nondet_u8(); g_ki_bp = nondet_ptr(); \
         g_h = nondet_size_t(); g_h_idx = nondet_size_t(); g_h_inq = nondet_bool(); g_h_key = nondet_u8(); g_h_b = nondet_u8(); \
         g_out = nondet_size_t(); g_out_b = nondet_u8(); g_moved = nondet_bool(); \
-        g0_len = nondet_size_t(); g0_cur = nondet_size_t(); g0_bpcur = nondet_size_t(); g0_idx = nondet_size_t(); \
+        g0_raise = nondet_int(); g0_len = nondet_size_t(); g0_cur = nondet_size_t(); g0_bpcur = nondet_size_t(); g0_idx = nondet_size_t(); \
         g0_data = nondet_ptr(); g0_bpdata = nondet_ptr(); g0_alloc = nondet_ptr(); \
         g_last_error = nondet_int(); g_raise_count = nondet_int(); g_phase_post = false; __CPROVER_havoc_object(g_nodes); } while (0)
 #define PQ_ASSUME(name, x) __CPROVER_assume(x);
